@@ -4,6 +4,7 @@ CONSTANTS
   N = 3
   Cap = 16
   Kinds <- KindsNone
+  Script <- ScriptNone
   GenK = 3
 VIEW View
 INVARIANT Inv_NoLostWake
